@@ -152,6 +152,8 @@ func (e *env) build(v *Val) interface{} {
 	switch v.K {
 	case "nil":
 		return nil
+	case "shared":
+		return sharedVal(v.I)
 	case "int":
 		return int(v.I)
 	case "i8":
@@ -242,6 +244,14 @@ func (e *env) build(v *Val) interface{} {
 			return &s
 		}
 		return s
+	case "ustruct":
+		return simUStruct{ID: int(v.I), user: e.build(child(v))}
+	case "umap":
+		u := simUMap{Name: string(v.S), vals: map[string]interface{}{}}
+		for i := range v.V {
+			u.vals[fmt.Sprintf("k%d", i)] = e.build(&v.V[i])
+		}
+		return u
 	case "nan":
 		return math.NaN()
 	case "inf":
@@ -317,6 +327,18 @@ func (e *env) build(v *Val) interface{} {
 		return error(p)
 	}
 	panic("harness: unknown value kind " + v.K)
+}
+
+// simUStruct and simUMap hold values that are reachable through an
+// unexported field only.
+type simUStruct struct {
+	ID   int
+	user interface{}
+}
+
+type simUMap struct {
+	Name string
+	vals map[string]interface{}
 }
 
 var int8Type = reflect.TypeOf(int8(0))
